@@ -49,7 +49,7 @@ PROPS = {
                 state=kinds("RQ", "VO", "PR", "B"), effects=eff("transfer"), errnames=False),
     "C08": dict(profiles=["lifecycle", "money", "modules"], monitors=["respondLaw", "rejectedNoChange", "settlement", "requests"],
                 state=kinds("AI", "AB", "RS", "RQ"), effects=eff("transfer", "slash"), errnames=True),
-    "C09": dict(profiles=["lifecycle", "modules"], monitors=["lifecycle"],
+    "C09": dict(profiles=["lifecycle", "modules", "genesis"], monitors=["lifecycle"],
                 state=kinds("CX"), effects=eff("ev", "statecb"), errnames=True),
     "C10": dict(profiles=["lifecycle"], monitors=["queues", "lifecycle", "cadence"],
                 state=kinds("CX", "NQ", "XQ", "NH", "XH"), effects=eff("ev"), errnames=False),
